@@ -76,6 +76,14 @@ def c08_docs(tier):
                 docs.append((doc, exp or 'exc:UnknownMosFileType'))
     for junk in ('<a/>', '<mos><messageID>1</messageID></mos>', '<mos><unknown><roID>R</roID></unknown></mos>', '<html><body/></html>'):
         docs.append((junk, 'exc:UnknownMosFileType'))
+    # text around the document: white space before the root is allowed, before an XML declaration it is not, other characters never
+    ok_doc = '<mos>%s<roStoryAppend><roID>R</roID></roStoryAppend></mos>' % pre
+    for lead, trail, exp in ((' \n', '\n ', 'StoryAppend'), ('\ufeff', '', 'StoryAppend'), ('\u00a0', '', 'exc:MosInvalidXML'), ('', '\u00a0', 'exc:MosInvalidXML'),
+                             ('\u2003\n', '', 'exc:MosInvalidXML'), ('', 'x', 'exc:MosInvalidXML')):
+        docs.append((lead + ok_doc + trail, exp))
+    for lead in ('\n', ' ', '\r\n\r\n', '\t'):
+        docs.append((lead + '<?xml version="1.0" encoding="UTF-8"?>' + ok_doc, 'exc:MosInvalidXML'))
+    docs.append(('<?xml version="1.0" encoding="UTF-8"?>\n' + ok_doc + '\n\n', 'StoryAppend'))
     for bad in ('', 'not xml', '<mos><roCreate></mos>', '<mos>', '<mos><a></b></mos>', '<?xml version="1.0"?>'):
         docs.append((bad, 'exc:MosInvalidXML'))
     return docs
